@@ -149,6 +149,7 @@ def built_st(tier):
             empty=st.sampled_from([None] * 11 + [0]),
             pair=st.one_of(st.none(), st.none(), _pair_st),
             relabel=st.sampled_from([False, False, True]),
+            order=st.sampled_from([None, None, None, "reverse", "rotate", "evens-first"]),
         )
     )
 
@@ -716,6 +717,21 @@ def check_built(case, ctx):
 
         ctx.call("history:relabel", _relabel, base)
         ctx.label("row-labels-permuted")
+    if case.get("order"):
+        # same rows, other row order (a chart is a set of rows; the library itself builds unsorted lists: append)
+        def _reorder(ms):
+            for m in ms.maps:
+                for name in ("bpms", "hits", "holds", "rolls", "mines"):
+                    lst = getattr(m, name)
+                    n = len(lst)
+                    if n < 2:
+                        continue
+                    how = case["order"]
+                    perm = list(range(n - 1, -1, -1)) if how == "reverse" else (list(range(n // 2, n)) + list(range(n // 2)) if how == "rotate" else list(range(0, n, 2)) + list(range(1, n, 2)))
+                    setattr(m, name, type(lst)(lst.df.iloc[perm].reset_index(drop=True)))
+
+        ctx.call("history:reorder", _reorder, base)
+        ctx.label("rows-out-of-time-order")
     if case["rate"]:
         _base_domain(ctx, base, "built")
     x = _rated(ctx, base, case["rate"])
